@@ -9,8 +9,8 @@ sys.path.insert(0, os.path.dirname(os.path.abspath(__file__)))
 from common import *  # noqa
 
 PID = "C14"
-KINDS = ["path", "binary", "text", "custom", "textfile", "latin1file"]
-KCOQ = {"path": "KPath", "binary": "KBinary", "text": "KText", "custom": "KCustom", "textfile": "KText", "latin1file": "KText"}
+KINDS = ["path", "binary", "text", "custom", "textfile", "latin1file", "console"]
+KCOQ = {"path": "KPath", "binary": "KBinary", "text": "KText", "custom": "KCustom", "textfile": "KText", "latin1file": "KText", "console": "KBinary"}
 TEXTS = ["layer 1", "Größe 5 µm", "温度", "", "a;b", "tab\there", "emoji 🔥"]
 
 
@@ -91,6 +91,21 @@ def run_impl(ops, eol, tmpdir):
                 elif k == "binary":
                     s = io.BytesIO()
                     objs[i] = ("binary", FileWriter(s), s)
+                elif k == "console":
+                    # ConsoleWriter binds sys.stdout.buffer when it is created: give it a capturing stand-in
+                    from gscrib.writers import ConsoleWriter
+
+                    class FakeStdout:
+                        buffer = io.BytesIO()
+                    fs = FakeStdout()
+                    fs.buffer = io.BytesIO()
+                    real = sys.stdout
+                    sys.stdout = fs
+                    try:
+                        cw = ConsoleWriter()
+                    finally:
+                        sys.stdout = real
+                    objs[i] = ("binary", cw, fs.buffer)
                 elif k == "text":
                     s = io.StringIO(newline="")
                     objs[i] = ("text", FileWriter(s), s)
